@@ -196,6 +196,9 @@ func (m *mod) runScript(ctx *statemachine.TransactionExecuteContext, s script) e
 }
 
 func (m *mod) BeforeTransactionsExecute(ctx *statemachine.BeforeTransactionsExecuteContext) error {
+	if m.nb > 0 { // block-level hooks write state too
+		ctx.GetStore(stores[0][0], stores[0][1]).Set([]byte{9}, []byte{byte(m.nb)})
+	}
 	for i := 0; i < m.nb; i++ {
 		if err := ctx.EventQueue().Add("m", "alpha", []byte{byte(i)}, nil); err != nil {
 			return err
@@ -204,6 +207,10 @@ func (m *mod) BeforeTransactionsExecute(ctx *statemachine.BeforeTransactionsExec
 	return nil
 }
 func (m *mod) AfterTransactionsExecute(ctx *statemachine.AfterTransactionsExecuteContext) error {
+	if m.na > 0 {
+		ctx.GetStore(stores[1][0], stores[1][1]).Set([]byte{9}, []byte{byte(m.na)})
+		ctx.GetStore(stores[0][0], stores[0][1]).Del([]byte{9})
+	}
 	for i := 0; i < m.na; i++ {
 		if err := ctx.EventQueue().AddUnrevertible("m", "beta", []byte{byte(i)}, nil); err != nil {
 			return err
@@ -404,6 +411,7 @@ func (n *node) block(height int, txs []txScript, dry bool, expected string, mid 
 	}
 	txs = expanded
 	midAt := len(txs) / 2
+	midPanic := ""
 	for i := range txs {
 		if mid != "" && i == midAt {
 			// the context is asked for its root (dry run) or refused (wrong expected root) and then keeps being used
@@ -412,7 +420,7 @@ func (n *node) block(height int, txs []txScript, dry bool, expected string, mid 
 				mreq.ExpectedStateRoot = bytes.Repeat([]byte{0xab}, 32)
 			}
 			if p := guard(func() { _, _ = n.h.Commit(mreq) }); p != "" {
-				st.Panic = p
+				midPanic = p
 			}
 		}
 		s := txs[i]
@@ -467,6 +475,9 @@ func (n *node) block(height int, txs []txScript, dry bool, expected string, mid 
 		if st.Res == "ok" {
 			commit(resp.StateRoot)
 		}
+	}
+	if st.Panic == "" && midPanic != "" {
+		st.Panic = "mid-block commit: " + midPanic
 	}
 	if st.Panic != "" {
 		st.Res = "panic"
@@ -697,7 +708,7 @@ func (n *node) cblock(height int, txs []txScript, nb, na int) stepRec {
 	}
 	st.BEvents = []evRec{}
 	for _, e := range evs {
-		er := evRec{Data: toInts(e.Data), Index: int(e.Index), Height: int(e.Height), Name: -1, Topics: []int{}, TxOK: true}
+		er := evRec{Data: toInts(e.Data), Index: int(e.Index), Height: int(e.Height), Name: -1, Topics: []int{}, TxOK: len(e.Topics) > 0}
 		for j, nm := range eventNames {
 			if nm == e.Name {
 				er.Name = j
@@ -718,6 +729,7 @@ func (n *node) cblock(height int, txs []txScript, nb, na int) stepRec {
 					}
 				}
 				er.Topics = append(er.Topics, 1000+k)
+				er.TxOK = er.TxOK && k >= 0
 			default:
 				er.Topics = append(er.Topics, int(tp[0]))
 			}
@@ -987,6 +999,15 @@ func main() {
 				// the engine finalises some height up to its tip; reverts / restarts below it are no longer its business,
 				// but everything from the finalised height upwards must stay undoable
 				rec.Steps = append(rec.Steps, n.finalize(n.final+r.Intn(n.tip-n.final+1)))
+				if r.Intn(3) == 0 { // walk back to the finalised floor and one step beyond: the last revert must find no diff
+					for k := 0; k < 40 && n.tip >= n.final && n.tip > 0; k++ {
+						st := n.revert("right")
+						rec.Steps = append(rec.Steps, st)
+						if st.Res != "ok" {
+							break
+						}
+					}
+				}
 			case x == 19:
 				txs := []txScript{}
 				for k := r.Intn(4); k > 0; k-- {
